@@ -8,6 +8,22 @@ from .natives import NATIVES, find_function, val_order_axioms
 from . import solve
 
 
+def axioms_for(o):
+    """background axioms an obligation needs, by the symbols it mentions"""
+    ax = []
+    if solve.uses_decl(list(o.assumptions) + [o.goal], 'val_lt'):
+        ax += val_order_axioms()
+    fs_ = list(o.assumptions) + [o.goal]
+    from .values import _mem_fns, mem_axioms
+    if _mem_fns and any(solve.uses_decl(fs_, 'mem_' + k_) for k_ in _mem_fns):
+        ax += mem_axioms()
+    if solve.uses_decl(fs_, 'dtype_is_string') or solve.uses_decl(fs_, 'val_of_int'):
+        from .pandas_model import dtype_axioms
+        ax += dtype_axioms(with_ints=solve.uses_decl(fs_, 'val_of_int'))
+    return ax
+
+
+
 def verify_case(repo, qualname, case_index, timeout_ms=10000, want_models=True, only_names=None, retry=True):
     """Returns dict(status, results=[...], stats, notes).  status: ok | undecided | error."""
     contract = REGISTRY[qualname]
@@ -73,25 +89,16 @@ def verify_case(repo, qualname, case_index, timeout_ms=10000, want_models=True, 
                 continue
             if only_names is not None and o.name not in only_names:
                 continue
-            ax = list(axioms)
-            if solve.uses_decl(list(o.assumptions) + [o.goal], 'val_lt'):
-                ax += val_order_axioms()
-            fs_ = list(o.assumptions) + [o.goal]
-            from .values import _mem_fns, mem_axioms
-            if _mem_fns and any(solve.uses_decl(fs_, 'mem_' + k_) for k_ in _mem_fns):
-                ax += mem_axioms()
-            if solve.uses_decl(fs_, 'dtype_is_string') or solve.uses_decl(fs_, 'val_of_int'):
-                from .pandas_model import dtype_axioms
-                ax += dtype_axioms(with_ints=solve.uses_decl(fs_, 'val_of_int'))
+            ax = list(axioms) + axioms_for(o)
             r = solve.discharge(o, timeout_ms=timeout_ms, axioms=ax, want_model=want_models)
-            if r.status == 'unknown':
-                n_retries[0] += 1
-            if r.status == 'unknown' and n_retries[0] <= 4:
+            if r.status == 'unknown' and n_retries[0] < 3:
                 # second pass with a generous budget: a slow query must not flip the verdict when
                 # all cores are busy
-                r2 = solve.discharge(o, timeout_ms=timeout_ms * 6, axioms=ax, want_model=want_models)
-                r2.detail = ('retried with %ds budget. ' % (timeout_ms * 6 // 1000)) + (r2.detail or '')
+                r2 = solve.discharge_portfolio(o, timeout_ms * 6, axioms=ax, want_model=want_models)
+                r2.detail = ('retried with %ds budget, ' % (timeout_ms * 6 // 1000)) + (r2.detail or '')
                 r = r2
+                if r.status == 'unknown':
+                    n_retries[0] += 1      # retries that still fail are counted; successful ones are free
             out['results'].append(r.to_dict())
         import hashlib as _hl
         from .natives import ModuleInfo as _MI
